@@ -15,7 +15,9 @@ RULE = ('A case is (scenario, schedule): client programs (sync/async requests, t
         'a case is a history of uses of API objects that are used more than once - the same LockContext entered again (in sequence, nested, '
         'from several threads, after a denied lock), the same operation repeated through one Manager (sync / pipelined), several Managers on '
         'one session, a Manager used for several with-blocks, an RPC object request()ed again (after its reply, while outstanding, after a '
-        'time-out, asynchronously) - x the server\'s answer policy per arrival (at once / held / later than the time limit, ok / rpc-error) '
+        'time-out, asynchronously), and operations made through a Manager with a short time limit that TIME OUT and whose answer arrives later while '
+        'requests of the same / other threads (sync, async, inside lock contexts, through other Managers) are outstanding '
+        '- x the server\'s answer policy per arrival (at once / held / later than the time limit, ok / rpc-error) '
         'x profile x base 1.0/1.1.')
 ASSUMES = ['CPython executes the code between two instrumented synchronisation points atomically with respect to the other managed threads (GIL + cooperative scheduler)',
            'uuid4 message-ids are unique (fresh-id oracle of the LTS; a trace violating it is rejected by the model)',
@@ -37,8 +39,8 @@ def _corpus():
 def _reuse_cases(tier, rng):
     from harness import reuse
     if tier == 'quick':
-        return reuse.core_cases() + [reuse.gen_case(rng) for _ in range(30)]
-    return reuse.all_cases() + [reuse.gen_case(rng) for _ in range(400)]
+        return reuse.core_cases() + [reuse.gen_case(rng) for _ in range(30)] + [reuse.gen_timeout_case(rng) for _ in range(14)]
+    return reuse.all_cases() + [reuse.gen_case(rng) for _ in range(400)] + [reuse.gen_timeout_case(rng) for _ in range(200)]
 
 def _case_of(rec):
     return dict(check='reuse', **{k: v for k, v in rec.items() if not k.startswith('_')})
